@@ -8,67 +8,87 @@
     Model/ReqMgr.v (request_manager.go + ExecuteSQL/ExecuteSQLForTxnTh) by ANY
     schedule — any interleaving of any number of callers, worker goroutines
     and the run loop, with any pattern of concurrency-control aborts.  The
-    channel capacity [c] and the worker limit [m] are parameters; the real
-    system is [c = chan_capacity = 100], [m = max_txn_thread_num = 24].
+    request-channel capacity [c], the worker limit [m] and the capacity [rc]
+    of the per-request reply channels are parameters; the real system is
+    [rinit_real]: [c = req_chan_capacity = 100], [m = max_txn_thread_num = 24],
+    [rc = reply_chan_capacity = 1], all three generated into Params.v from the
+    Go sources.
 
-    MODEL-PREDICTED FINDING F-REQ-DEADLOCK ("no call blocks forever" is false
-    at capacity).  The run loop hands a result to its caller over an
-    unbuffered channel while the caller may not yet have sent its wake-up
-    token into the 100-slot channel that the loop itself drains.  If the
-    channel fills up in that window (>= capacity pending senders: tokens of
-    other callers and results of workers), the loop and the caller block on
-    each other and, with them, every other caller and worker:
-    [no_deadlock_refuted] (witness with the real parameters, 102 callers) and
-    [deadlock_at_capacity_refuted] (capacity 2, 4 callers).  This is the only
-    way to get stuck ([deadlock_characterisation]); it needs at least
-    [c - m] = 76 tokens in the channel, hence more than 76 callers
-    ([deadlock_needs_capacity], [no_deadlock_few_callers]).
+    F-REQ-DEADLOCK (FIXED defect; predicted by this model, reproduced on the
+    engine, fixed in the repository by giving the reply channel capacity 1).
+    With UNBUFFERED reply channels ([rc = 0], the code before the fix) the run
+    loop hands a result to its caller by rendezvous while the caller may not
+    yet have sent its wake-up token into the 100-slot channel that the loop
+    itself drains; if that channel fills up in this window, loop and caller
+    block on each other and, with them, every other caller and worker.  The
+    unbuffered variant stays refuted by machine-checked witnesses:
+    [no_deadlock_unbuffered_refuted] (real capacities, 102 callers) and
+    [deadlock_at_capacity_refuted] (capacity 2, 4 callers).
+    For the code as it is now, "no call blocks forever" is PROVED:
+    [no_deadlock_buffered], and [no_deadlock_real] whose side conditions —
+    including [1 <= reply_chan_capacity] — are discharged by computation from
+    Params.v, so reverting the fix (which regenerates that constant as 0)
+    breaks the proof; [all_answered_if_finite_aborts] is the liveness part.
     Statements only. *)
 From Coq Require Import List NArith Bool.
 From SDB Require Import Params Base.Assoc Model.ReqMgr Proofs.ReqMgrProofs.
 Import ListNotations.
 Open Scope nat_scope.
 
-Definition reachable (c m : N) (s : rstate) : Prop :=
-  exists schedule, rrun schedule (rinit c m) = Some s.
+Definition reachable (c m rc : N) (s : rstate) : Prop :=
+  exists schedule, rrun schedule (rinit c m rc) = Some s.
 
 (** The real parameters satisfy the side conditions used below. *)
 Example real_parameters :
-  N.leb 1 chan_capacity = true /\ N.leb 2 max_txn_thread_num = true /\
-  rinit_real = rinit 100 24.
+  N.leb 1 req_chan_capacity = true /\ N.leb 2 max_txn_thread_num = true /\
+  N.leb 1 reply_chan_capacity = true /\ rinit_real = rinit 100 24 1.
 Proof. vm_compute. repeat split. Qed.
 
 (** * Every call gets at most one reply, and it is the reply to its own statement *)
 
-(** One table entry per caller; the number of replies handed to caller [id]
+(** One table entry per caller; the number of replies received by caller [id]
     is at most one, and it is one exactly when the caller is done. *)
-Theorem reply_at_most_once : forall c m s, reachable c m s ->
+Theorem reply_at_most_once : forall c m rc s, reachable c m rc s ->
   NoDup (map fst (callers s)) /\
   forall id, occ id (replied s) <= 1 /\
     (occ id (replied s) = 1 <-> exists r o, aget (callers s) id = Some (CDone r o)).
 Proof. exact reply_at_most_once_l. Qed.
 Print Assumptions reply_at_most_once.
 
-(** A caller that is done stays done with the same answer, whatever happens next. *)
+(** A caller that is done stays done with the same answer, whatever happens
+    next; a reply waiting in a caller's (buffered) channel stays there until it
+    becomes the caller's answer, unchanged. *)
 Theorem reply_is_final : forall s l s' id r o,
-  rstep s l = Some s' -> aget (callers s) id = Some (CDone r o) ->
-  aget (callers s') id = Some (CDone r o).
+  rstep s l = Some s' ->
+  (aget (callers s) id = Some (CDone r o) -> aget (callers s') id = Some (CDone r o)) /\
+  (aget (callers s) id = Some (Replied_not_signalled r o) ->
+   aget (callers s') id = Some (Replied_not_signalled r o) \/
+   aget (callers s') id = Some (CDone r o)).
 Proof. exact done_stable_l. Qed.
 Print Assumptions reply_is_final.
 
 (** What a caller received is the result message of ITS request, with a final
     outcome; that request committed exactly once and was answered exactly once. *)
-Theorem reply_is_own_result : forall c m s, reachable c m s ->
+Theorem reply_is_own_result : forall c m rc s, reachable c m rc s ->
   forall id r o, In (id, CDone r o) (callers s) ->
     r = id /\ o = Ok /\ occ id (effects s) = 1 /\ occ id (replied s) = 1.
 Proof. exact reply_is_own_result_l. Qed.
 Print Assumptions reply_is_own_result.
 
+(** The same for a reply still sitting in the caller's channel (this state
+    exists only with buffered reply channels). *)
+Theorem pending_reply_is_own_result : forall c m rc s, reachable c m rc s ->
+  forall id r o, In (id, Replied_not_signalled r o) (callers s) ->
+    r = id /\ o = Ok /\ occ id (effects s) = 1 /\ occ id (replied s) = 0 /\ (1 <= rc)%N.
+Proof. exact pending_reply_is_own_result_l. Qed.
+Print Assumptions pending_reply_is_own_result.
+
 (** The aborted marker never reaches a caller: the loop never holds one for
-    delivery and no caller has one. *)
-Theorem aborted_never_delivered : forall c m s, reachable c m s ->
+    delivery, no caller has one and none waits in a reply channel. *)
+Theorem aborted_never_delivered : forall c m rc s, reachable c m rc s ->
   (forall id o, loop s = Delivering id o -> o = Ok) /\
-  (forall id r, ~ In (id, CDone r Aborted) (callers s)).
+  (forall id r, ~ In (id, CDone r Aborted) (callers s)) /\
+  (forall id r, ~ In (id, Replied_not_signalled r Aborted) (callers s)).
 Proof. exact aborted_never_delivered_l. Qed.
 Print Assumptions aborted_never_delivered.
 
@@ -76,7 +96,7 @@ Print Assumptions aborted_never_delivered.
 
 (** A request commits at most once, and once it has committed it is neither
     queued nor running any more (it cannot be executed again). *)
-Theorem effect_at_most_once : forall c m s, reachable c m s -> forall id,
+Theorem effect_at_most_once : forall c m rc s, reachable c m rc s -> forall id,
   occ id (effects s) <= 1 /\
   (occ id (effects s) = 1 -> occ id (queue s) = 0 /\ occ id (workers s) = 0).
 Proof. exact effect_at_most_once_l. Qed.
@@ -87,24 +107,26 @@ Print Assumptions effect_at_most_once.
 (** curExectingReqNum = running workers + results not yet received; it never
     exceeds MaxTxnThreadNum (so the uint64 decrement never wraps) and the
     channel never holds more than its capacity. *)
-Theorem accounting_invariant : forall c m s, reachable c m s ->
-  cap s = c /\ maxw s = m /\
+Theorem accounting_invariant : forall c m rc s, reachable c m rc s ->
+  cap s = c /\ maxw s = m /\ rcap s = rc /\
   N.to_nat (inflight s) = length (workers s) + count is_result (chan s) /\
   (inflight s <= maxw s)%N /\ length (chan s) <= N.to_nat (cap s).
 Proof. exact accounting_l. Qed.
 Print Assumptions accounting_invariant.
 
 (** Every request is in exactly one place — the queue, a worker, a result
-    message in the channel, the loop's hands, or answered — no duplication,
-    no loss, per request ([places], see Model/ReqMgr.v) and in total. *)
-Theorem each_request_exactly_one_place : forall c m s, reachable c m s ->
+    message in the channel, the loop's hands, or answered (received, or in the
+    caller's reply channel) — no duplication, no loss, per request ([places],
+    see Model/ReqMgr.v) and in total. *)
+Theorem each_request_exactly_one_place : forall c m rc s, reachable c m rc s ->
   (forall id, places s id = known (callers s) id) /\
   length (queue s) + length (workers s) + count is_result (chan s)
-    + delivering (loop s) + count is_done (callers s) = length (callers s).
+    + delivering (loop s) + count is_answered (callers s) = length (callers s).
 Proof. exact one_place_l. Qed.
 Print Assumptions each_request_exactly_one_place.
 
-Theorem each_request_exactly_one_place_cases : forall c m s, reachable c m s -> forall id,
+Theorem each_request_exactly_one_place_cases : forall c m rc s, reachable c m rc s ->
+  forall id,
   (In id (queue s) \/ In id (workers s) -> aget (callers s) id <> None) /\
   (aget (callers s) id <> None -> places s id = 1) /\
   (aget (callers s) id = None -> places s id = 0).
@@ -114,10 +136,10 @@ Print Assumptions each_request_exactly_one_place_cases.
 (** * No stranded request *)
 
 (** The inductive invariant: the queue is longer than the number of pending
-    wake-ups (tokens in the channel, callers about to send one, the loop's
-    own pending dispatch) only while all [m] worker slots are taken. *)
-Theorem backlog_only_when_saturated : forall c m s, reachable c m s ->
-  length (queue s) <= count is_token (chan s) + count is_ens (callers s) + busy (loop s)
+    wake-ups (tokens in the channel, callers that still owe their token, the
+    loop's own pending dispatch) only while all [m] worker slots are taken. *)
+Theorem backlog_only_when_saturated : forall c m rc s, reachable c m rc s ->
+  length (queue s) <= count is_token (chan s) + count is_owing (callers s) + busy (loop s)
   \/ N.to_nat m <= N.to_nat (inflight s) + busy (loop s).
 Proof. exact backlog_l. Qed.
 Print Assumptions backlog_only_when_saturated.
@@ -126,30 +148,30 @@ Print Assumptions backlog_only_when_saturated.
     the queue again. *)
 Definition stranded (s : rstate) : Prop :=
   queue s <> [] /\ chan s = [] /\ workers s = [] /\ loop s = Idle /\
-  (forall id, aget (callers s) id <> Some Enqueued_not_signalled).
+  (forall id st, aget (callers s) id = Some st -> owes st = false).
 
-Theorem no_stranding : forall c m s, (1 <= m)%N -> reachable c m s -> ~ stranded s.
+Theorem no_stranding : forall c m rc s, (1 <= m)%N -> reachable c m rc s -> ~ stranded s.
 Proof. exact no_stranding_l. Qed.
 Print Assumptions no_stranding.
 
 (** Positive form: a non-empty queue always comes with a pending message, a
     caller about to send one, a loop iteration in progress, or a worker. *)
-Theorem queued_request_has_pending_wakeup : forall c m s, (1 <= m)%N -> reachable c m s ->
-  queue s <> [] ->
-  0 < count is_token (chan s) + count is_ens (callers s) + busy (loop s)
+Theorem queued_request_has_pending_wakeup : forall c m rc s, (1 <= m)%N ->
+  reachable c m rc s -> queue s <> [] ->
+  0 < count is_token (chan s) + count is_owing (callers s) + busy (loop s)
       + length (workers s) + count is_result (chan s).
 Proof. exact pending_work_l. Qed.
 Print Assumptions queued_request_has_pending_wakeup.
 
 (** With at least two worker slots (the real value is 24): when nothing is in
     flight, every queued request still has its own wake-up pending. *)
-Theorem idle_backlog_bound : forall c m s, (2 <= m)%N -> reachable c m s ->
+Theorem idle_backlog_bound : forall c m rc s, (2 <= m)%N -> reachable c m rc s ->
   inflight s = 0%N ->
-  length (queue s) <= count is_token (chan s) + count is_ens (callers s) + busy (loop s).
+  length (queue s) <= count is_token (chan s) + count is_owing (callers s) + busy (loop s).
 Proof. exact backlog_idle_l. Qed.
 Print Assumptions idle_backlog_bound.
 
-(** * Deadlock analysis *)
+(** * No call blocks forever *)
 
 (** [enabled] lists exactly the labels (other than new callers) that can fire. *)
 Theorem enabled_is_sound : forall s l, In l (enabled s) -> exists s', rstep s l = Some s'.
@@ -166,91 +188,145 @@ Definition quiescent (s : rstate) : Prop :=
   queue s = [] /\ workers s = [] /\ chan s = [] /\ loop s = Idle /\
   forall id st, In (id, st) (callers s) -> exists r o, st = CDone r o.
 
-(** F-REQ-DEADLOCK: the run loop is blocked handing a result to a caller that
-    is itself blocked sending its wake-up token into the full channel. *)
+(** In every reachable state something can happen unless every caller has
+    received its answer and queue, workers, channel and loop are idle. *)
+Definition no_deadlock (c m rc : N) : Prop :=
+  forall s, reachable c m rc s -> enabled s <> [] \/ quiescent s.
+
+(** PROVED for buffered reply channels ... *)
+Theorem no_deadlock_buffered : forall c m rc, (1 <= c)%N -> (1 <= m)%N -> (1 <= rc)%N ->
+  no_deadlock c m rc.
+Proof. exact no_deadlock_buffered_l. Qed.
+Print Assumptions no_deadlock_buffered.
+
+(** ... hence for the code as it is: the three side conditions are computed
+    from the generated constants ([1 <= reply_chan_capacity] fails to compute
+    if the reply channel is made unbuffered again). *)
+Theorem no_deadlock_real :
+  no_deadlock req_chan_capacity max_txn_thread_num reply_chan_capacity.
+Proof. exact no_deadlock_real_l. Qed.
+Print Assumptions no_deadlock_real.
+
+(** ** The unbuffered variant (the code before the fix of F-REQ-DEADLOCK) *)
+
+(** The run loop is blocked handing a result to a caller that is itself
+    blocked sending its wake-up token into the full channel. *)
 Definition loop_caller_deadlock (s : rstate) : Prop :=
-  exists id o, loop s = Delivering id o /\
+  rcap s = 0%N /\ exists id o, loop s = Delivering id o /\
     aget (callers s) id = Some Enqueued_not_signalled /\ chan_full s = true.
 
-(** Wanted: in every reachable state something can happen unless all callers
-    have their answer.  FALSE for the faithful model, see [no_deadlock_refuted]. *)
-Definition no_deadlock (c m : N) : Prop :=
-  forall s, reachable c m s -> enabled s <> [] \/ quiescent s.
+(** REFUTED with the real capacities and unbuffered reply channels: 102
+    callers; caller 1 is descheduled between the unlock and the token send of
+    AppendRequest, its request is dispatched (by caller 2's token), finishes and
+    is received by the loop, 100 further callers fill the channel
+    ([deadlock_schedule], Model/ReqMgr.v). *)
+Theorem no_deadlock_unbuffered_refuted :
+  ~ no_deadlock req_chan_capacity max_txn_thread_num 0.
+Proof. exact no_deadlock_unbuffered_refuted_l. Qed.
+Print Assumptions no_deadlock_unbuffered_refuted.
 
-(** Refutation with the real parameters: 102 callers; caller 1 is descheduled
-    between the unlock and the token send of AppendRequest, its request is
-    dispatched (by caller 2's token), finishes and is received by the loop,
-    100 further callers fill the channel ([deadlock_schedule], Model/ReqMgr.v). *)
-Theorem no_deadlock_refuted : ~ no_deadlock chan_capacity max_txn_thread_num.
-Proof. exact no_deadlock_refuted_l. Qed.
-Print Assumptions no_deadlock_refuted.
-
-Theorem deadlock_at_real_capacity : exists s,
-  rrun (deadlock_schedule 100) rinit_real = Some s /\
+Theorem deadlock_at_real_capacity_unbuffered : exists s,
+  rrun (deadlock_schedule 100) (rinit req_chan_capacity max_txn_thread_num 0) = Some s /\
   loop s = Delivering 1%N Ok /\ aget (callers s) 1%N = Some Enqueued_not_signalled /\
   count is_token (chan s) = 100 /\ chan_full s = true /\ enabled s = [] /\
   length (callers s) = 102.
-Proof. exact deadlock_real_l. Qed.
-Print Assumptions deadlock_at_real_capacity.
+Proof. exact deadlock_unbuffered_l. Qed.
+Print Assumptions deadlock_at_real_capacity_unbuffered.
 
 (** The same with capacity 2 and 4 callers (the shape used by the harness). *)
 Theorem deadlock_at_capacity_refuted : exists s,
-  rrun (deadlock_schedule 2) (rinit 2 24) = Some s /\
+  rrun (deadlock_schedule 2) (rinit 2 24 0) = Some s /\
   loop s = Delivering 1%N Ok /\ aget (callers s) 1%N = Some Enqueued_not_signalled /\
   chan s = [Token; Token] /\ chan_full s = true /\ enabled s = [] /\
   length (callers s) = 4.
 Proof. exact deadlock_small_l. Qed.
 Print Assumptions deadlock_at_capacity_refuted.
 
-(** Partial results.  (1) The loop/caller embrace is the ONLY way to get stuck. *)
-Theorem deadlock_characterisation : forall c m s, (1 <= c)%N -> (1 <= m)%N ->
-  reachable c m s -> enabled s = [] -> quiescent s \/ loop_caller_deadlock s.
+(** On the code as it is now the very same schedule does not block: the loop
+    puts the reply into caller 1's channel and goes on. *)
+Theorem deadlock_schedule_harmless_now : exists s,
+  rrun (deadlock_schedule 100) rinit_real = Some s /\
+  loop s = Delivering 1%N Ok /\ aget (callers s) 1%N = Some Enqueued_not_signalled /\
+  chan_full s = true /\ enabled s = [Deliver 1%N] /\
+  exists s', rstep s (Deliver 1%N) = Some s' /\
+    aget (callers s') 1%N = Some (Replied_not_signalled 1%N Ok) /\ loop s' = Dispatching.
+Proof. exact fixed_schedule_proceeds_l. Qed.
+Print Assumptions deadlock_schedule_harmless_now.
+
+(** Partial results that hold for EVERY reply-channel capacity, 0 included.
+    (1) The loop/caller embrace is the only way to get stuck. *)
+Theorem deadlock_characterisation : forall c m rc s, (1 <= c)%N -> (1 <= m)%N ->
+  reachable c m rc s -> enabled s = [] -> quiescent s \/ loop_caller_deadlock s.
 Proof. exact deadlock_characterisation_l. Qed.
 Print Assumptions deadlock_characterisation.
 
-Theorem no_deadlock_partial : forall c m s, (1 <= c)%N -> (1 <= m)%N ->
-  reachable c m s -> enabled s <> [] \/ quiescent s \/ loop_caller_deadlock s.
+Theorem no_deadlock_partial : forall c m rc s, (1 <= c)%N -> (1 <= m)%N ->
+  reachable c m rc s -> enabled s <> [] \/ quiescent s \/ loop_caller_deadlock s.
 Proof. exact no_deadlock_partial_l. Qed.
 Print Assumptions no_deadlock_partial.
 
 (** (2) While the channel has a free slot, something can happen unless every
     caller is done and the queue, the workers and the channel are empty. *)
-Theorem no_deadlock_below_capacity : forall c m s, (1 <= c)%N -> (1 <= m)%N ->
-  reachable c m s -> chan_full s = false -> enabled s <> [] \/ quiescent s.
+Theorem no_deadlock_below_capacity : forall c m rc s, (1 <= c)%N -> (1 <= m)%N ->
+  reachable c m rc s -> chan_full s = false -> enabled s <> [] \/ quiescent s.
 Proof. exact no_deadlock_below_capacity_l. Qed.
 Print Assumptions no_deadlock_below_capacity.
 
-(** (3) The deadlock needs at least [c - m] tokens in the channel, each sent by
-    a different caller other than the victim ... *)
-Theorem deadlock_needs_capacity : forall c m s, reachable c m s -> loop_caller_deadlock s ->
-  N.to_nat c <= count is_token (chan s) + N.to_nat m /\
+(** (3) The deadlock needs unbuffered reply channels and at least [c - m]
+    tokens in the channel, each sent by a different caller other than the
+    victim ... *)
+Theorem deadlock_needs_capacity : forall c m rc s, reachable c m rc s ->
+  loop_caller_deadlock s ->
+  rc = 0%N /\ N.to_nat c <= count is_token (chan s) + N.to_nat m /\
   count is_token (chan s) + 1 <= length (callers s).
 Proof. exact deadlock_needs_l. Qed.
 Print Assumptions deadlock_needs_capacity.
 
-(** ... so it cannot happen while at most [c - m] (= 76) calls have been made. *)
-Theorem no_deadlock_few_callers : forall c m s, (1 <= c)%N -> (1 <= m)%N ->
-  reachable c m s -> length (callers s) + N.to_nat m <= N.to_nat c ->
+(** ... so it could not happen while at most [c - m] (= 76) calls had been made. *)
+Theorem no_deadlock_few_callers : forall c m rc s, (1 <= c)%N -> (1 <= m)%N ->
+  reachable c m rc s -> length (callers s) + N.to_nat m <= N.to_nat c ->
   enabled s <> [] \/ quiescent s.
 Proof. exact no_deadlock_few_callers_l. Qed.
 Print Assumptions no_deadlock_few_callers.
 
-(** * Every call is answered if aborts are finite (and the channel does not fill up) *)
+(** * Every call is answered if aborts are finite *)
 
 (** From any reachable state, once no new callers arrive, EVERY schedule is
     short: at most [potential s] steps plus 4 per concurrency-control abort.
     So with finitely many aborts the system cannot run forever without
     answering, under any scheduler (no fairness assumption is needed: every
-    step other than an abort makes progress); and when it stops with a free
-    channel slot, every caller has its answer.  (When it stops with a full
-    channel it is in F-REQ-DEADLOCK, by [deadlock_characterisation].) *)
-Theorem all_answered_if_finite_aborts : forall c m s ls s', (1 <= c)%N -> (1 <= m)%N ->
-  reachable c m s -> rrun ls s = Some s' -> no_enqueue ls = true ->
+    step other than an abort makes progress); and with buffered reply channels
+    every maximal such run — one that stops because nothing is enabled — ends
+    with every caller holding its answer. *)
+Theorem all_answered_if_finite_aborts : forall c m rc s ls s',
+  (1 <= c)%N -> (1 <= m)%N -> (1 <= rc)%N ->
+  reachable c m rc s -> rrun ls s = Some s' -> no_enqueue ls = true ->
   length ls <= potential s + 4 * count is_abort_finish ls /\
-  (enabled s' = [] -> chan_full s' = false ->
+  (enabled s' = [] ->
    forall id st, In (id, st) (callers s') -> exists r o, st = CDone r o).
 Proof. exact all_answered_l. Qed.
 Print Assumptions all_answered_if_finite_aborts.
+
+Theorem all_answered_if_finite_aborts_real : forall s ls s',
+  reachable req_chan_capacity max_txn_thread_num reply_chan_capacity s ->
+  rrun ls s = Some s' -> no_enqueue ls = true ->
+  length ls <= potential s + 4 * count is_abort_finish ls /\
+  (enabled s' = [] ->
+   forall id st, In (id, st) (callers s') -> exists r o, st = CDone r o).
+Proof. exact all_answered_real_l. Qed.
+Print Assumptions all_answered_if_finite_aborts_real.
+
+(** For any reply-channel capacity (the unbuffered variant included) the same
+    holds for runs that stop with a free channel slot; a run that stops with
+    a full channel is in the loop/caller deadlock ([deadlock_characterisation]). *)
+Theorem all_answered_if_finite_aborts_partial : forall c m rc s ls s',
+  (1 <= c)%N -> (1 <= m)%N ->
+  reachable c m rc s -> rrun ls s = Some s' -> no_enqueue ls = true ->
+  length ls <= potential s + 4 * count is_abort_finish ls /\
+  (enabled s' = [] -> chan_full s' = false ->
+   forall id st, In (id, st) (callers s') -> exists r o, st = CDone r o).
+Proof. exact all_answered_partial_l. Qed.
+Print Assumptions all_answered_if_finite_aborts_partial.
 
 (** * Non-vacuity *)
 
@@ -264,7 +340,7 @@ Example c12_nonvacuous_retry :
                 LoopRecv; Dispatch; LoopRecv; Deliver 2; Dispatch;
                 WorkerFinish 1 Ok; WorkerFinish 3 Ok;
                 LoopRecv; Deliver 1; Dispatch; LoopRecv; Deliver 3; Dispatch]%N in
-  match rrun sched (rinit 100 2) with
+  match rrun sched (rinit 100 2 1) with
   | Some s =>
       callers s = [(3, CDone 3 Ok); (2, CDone 2 Ok); (1, CDone 1 Ok)]%N /\
       replied s = [3; 1; 2]%N /\ effects s = [3; 1; 2]%N /\
@@ -280,29 +356,49 @@ Proof. vm_compute. repeat split. Qed.
 Example c12_nonvacuous_requeue_at_head :
   match rrun [Enqueue 1; Enqueue 2; Enqueue 3; SendToken 1; SendToken 2; SendToken 3;
               LoopRecv; Dispatch; LoopRecv; Dispatch; LoopRecv; Dispatch;
-              WorkerFinish 1 Aborted; LoopRecv]%N (rinit 100 2) with
+              WorkerFinish 1 Aborted; LoopRecv]%N (rinit 100 2 1) with
   | Some s => queue s = [1; 3]%N /\ workers s = [2]%N /\ inflight s = 1%N /\
-              loop s = Dispatching /\ enabled s = [Dispatch; WorkerFinish 2 Ok; WorkerFinish 2 Aborted]%N
+              loop s = Dispatching /\
+              enabled s = [Dispatch; WorkerFinish 2 Ok; WorkerFinish 2 Aborted]%N
   | None => False
   end.
 Proof. vm_compute. repeat split. Qed.
 
-(** Labels that are not enabled are rejected: a second reply, a token from a
-    caller that already sent one, delivery to a caller that has not sent its
-    token yet, a worker that does not exist. *)
+(** The reply overtakes the token (buffered reply channel): request 1 is
+    dispatched by caller 2's token and answered while caller 1 has not sent its
+    token yet; the reply waits in caller 1's channel ([replied] still empty),
+    and the late token send completes the call. *)
+Example c12_nonvacuous_reply_before_token :
+  let pre := [Enqueue 1; Enqueue 2; SendToken 2; LoopRecv; Dispatch; WorkerFinish 1 Ok;
+              LoopRecv; Deliver 1]%N in
+  match rrun pre rinit_real, rrun (pre ++ [SendToken 1%N]) rinit_real with
+  | Some s, Some s' =>
+      aget (callers s) 1%N = Some (Replied_not_signalled 1%N Ok) /\ replied s = [] /\
+      effects s = [1%N] /\ loop s = Dispatching /\
+      aget (callers s') 1%N = Some (CDone 1%N Ok) /\ replied s' = [1%N] /\ chan s' = [Token]
+  | _, _ => False
+  end.
+Proof. vm_compute. repeat split. Qed.
+
+(** Labels that are not enabled are rejected: a second token from the same
+    caller, a second call on the same reply channel, delivery by rendezvous to a
+    caller that has not sent its token yet (unbuffered variant only), a second
+    reply, a worker that does not exist. *)
 Example c12_nonvacuous_rejections :
-  rrun [Enqueue 1; SendToken 1; SendToken 1]%N (rinit 100 24) = None /\
-  rrun [Enqueue 1; Enqueue 1]%N (rinit 100 24) = None /\
+  rrun [Enqueue 1; SendToken 1; SendToken 1]%N rinit_real = None /\
+  rrun [Enqueue 1; Enqueue 1]%N rinit_real = None /\
   rrun [Enqueue 1; Enqueue 2; SendToken 2; LoopRecv; Dispatch; WorkerFinish 1 Ok; LoopRecv;
-        Deliver 1]%N (rinit 100 24) = None /\
+        Deliver 1]%N (rinit 100 24 0) = None /\
   rrun [Enqueue 1; SendToken 1; LoopRecv; Dispatch; WorkerFinish 1 Ok; LoopRecv; Deliver 1;
-        Deliver 1]%N (rinit 100 24) = None /\
-  rrun [Enqueue 1; SendToken 1; WorkerFinish 1 Ok]%N (rinit 100 24) = None.
+        Deliver 1]%N rinit_real = None /\
+  rrun [Enqueue 1; Enqueue 2; SendToken 2; LoopRecv; Dispatch; WorkerFinish 1 Ok; LoopRecv;
+        Deliver 1; Deliver 1]%N rinit_real = None /\
+  rrun [Enqueue 1; SendToken 1; WorkerFinish 1 Ok]%N rinit_real = None.
 Proof. vm_compute. repeat split. Qed.
 
 (** The side condition [2 <= m] of [idle_backlog_bound] is needed: with one
     worker slot the bound fails. *)
 Example c12_idle_backlog_needs_two_slots : exists s,
-  reachable 100 1 s /\ inflight s = 0%N /\ length (queue s) = 2 /\
-  count is_token (chan s) + count is_ens (callers s) + busy (loop s) = 1.
+  reachable 100 1 1 s /\ inflight s = 0%N /\ length (queue s) = 2 /\
+  count is_token (chan s) + count is_owing (callers s) + busy (loop s) = 1.
 Proof. exact backlog_idle_needs_two_l. Qed.
